@@ -183,6 +183,105 @@ func c20RunBBS(req string) string {
 	return "ok shown=" + strings.Join(shown, ",")
 }
 
+// c20RunBBS2: TWO descriptors with limit_disclosure over the SAME credential, each asking for its own leaves; the answer is
+// built as a presentation array (CreateVPArray) and matched with the merged submission: every descriptor gets back a
+// credential that shows exactly ITS leaves.
+//   input: "bbs2" "|" requested0 "|" requested1        output: "ok d0=<leaves>;d1=<leaves>" | nocreds | err <stage>
+func c20RunBBS2(req0, req1 string) string {
+	if err := c20BBSSetup(); err != nil {
+		return "err setup " + err.Error()
+	}
+	loader, pub := c20BBS.loader, c20BBS.pub
+	fetch := verifiable.SingleKey(pub, "Bls12381G2Key2020")
+	vc, err := verifiable.ParseCredential(c20BBS.signed, verifiable.WithJSONLDDocumentLoader(loader), verifiable.WithPublicKeyFetcher(fetch))
+	if err != nil {
+		return "err parse"
+	}
+	required := presexch.Required
+	strType := "string"
+	var descs []*presexch.InputDescriptor
+	for i, req := range []string{req0, req1} {
+		var fields []*presexch.Field
+		for _, p := range strings.Split(req, ",") {
+			fields = append(fields, &presexch.Field{Path: []string{"$.credentialSubject." + p}, Filter: &presexch.Filter{Type: &strType}})
+		}
+		descs = append(descs, &presexch.InputDescriptor{ID: fmt.Sprintf("d%d", i),
+			Schema:      []*presexch.Schema{{URI: fmt.Sprintf("%s#%s", verifiable.ContextID, verifiable.VCType)}},
+			Constraints: &presexch.Constraints{LimitDisclosure: &required, Fields: fields}})
+	}
+	pd := &presexch.PresentationDefinition{ID: "verif-bbs2", InputDescriptors: descs}
+	vps, sub, err := pd.CreateVPArray([]*verifiable.Credential{vc}, loader, verifiable.WithJSONLDDocumentLoader(loader),
+		verifiable.WithPublicKeyFetcher(fetch))
+	if err != nil {
+		if err == presexch.ErrNoCredentials {
+			return "nocreds"
+		}
+		return "err createvparray"
+	}
+	var parsed []*verifiable.Presentation
+	for _, v := range vps {
+		b, err := v.MarshalJSON()
+		if err != nil {
+			return "err marshal-vp"
+		}
+		pv, err := verifiable.ParsePresentation(b, verifiable.WithPresDisabledProofCheck(), verifiable.WithPresJSONLDDocumentLoader(loader))
+		if err != nil {
+			return "err parse-vp"
+		}
+		parsed = append(parsed, pv)
+	}
+	// (no suites handed in: the verifier selects them from the proof types, with the nonce of each derived proof)
+	matched, err := pd.Match(parsed, loader, presexch.WithMergedSubmission(sub), presexch.WithCredentialOptions(
+		verifiable.WithJSONLDDocumentLoader(loader), verifiable.WithPublicKeyFetcher(fetch)))
+	if err != nil {
+		return "err match"
+	}
+	var outs []string
+	for _, id := range []string{"d0", "d1"} {
+		got, ok := matched[id]
+		if !ok || got.Credential == nil {
+			return "err no-credential " + id
+		}
+		raw, err := json.Marshal(got.Credential)
+		if err != nil {
+			return "err marshal"
+		}
+		outs = append(outs, id+"="+strings.Join(c20ShownLeaves(raw), ","))
+	}
+	return "ok " + strings.Join(outs, ";")
+}
+
+func c20ShownLeaves(raw []byte) []string {
+	var doc map[string]interface{}
+	if json.Unmarshal(raw, &doc) != nil {
+		return []string{"?"}
+	}
+	var shown []string
+	var walk func(prefix string, v interface{})
+	walk = func(prefix string, v interface{}) {
+		m, ok := v.(map[string]interface{})
+		if !ok {
+			shown = append(shown, prefix)
+			return
+		}
+		for k, x := range m {
+			if k == "id" || k == "type" {
+				continue
+			}
+			p := k
+			if prefix != "" {
+				p = prefix + "." + k
+			}
+			walk(p, x)
+		}
+	}
+	if sub, ok := doc["credentialSubject"].(map[string]interface{}); ok {
+		walk("", sub)
+	}
+	sort.Strings(shown)
+	return shown
+}
+
 func c20GenBBS(r *Rng, n int) []string {
 	paths := []string{"fullName", "spouse", "education.year", "education.school.schoolName", "education.school.city"}
 	var out []string
@@ -197,6 +296,9 @@ func c20GenBBS(r *Rng, n int) []string {
 			req = []string{r.Pick(paths)}
 		}
 		out = append(out, "bbs|"+strings.Join(req, ","))
+		if i%3 == 0 {
+			out = append(out, "bbs2|"+strings.Join(req, ",")+"|"+r.Pick(paths))
+		}
 	}
 	return out
 }
